@@ -6,6 +6,7 @@ CONSTANTS
   Cols <- ColsAll
   ClassKinds <- KindsTab
   ClassX <- XTabRT
+  ClassXS <- XSNone
   ClassT <- TTabRT
   ClassM <- MTabRT
   LowerOf <- LowerTab
